@@ -6,5 +6,6 @@ P=$1; ID=$2; TIER=${3:-quick}
 WT=/tmp/seedwt_$$
 git -C /repo worktree add -q --detach $WT HEAD || exit 2
 ( cd $WT && git apply "$P" ) || { echo "PATCH DOES NOT APPLY"; git -C /repo worktree remove --force $WT; exit 3; }
-cd /verif && VF_REPO=$WT ./check $ID $TIER 2>&1 | grep -v KNOWN | tail -3
+# (evidence of a run against a seeded change goes to a scratch directory, not to /verif/evidence)
+cd /verif && VF_REPO=$WT VF_EVIDENCE_DIR=/tmp/seed_evidence ./check $ID $TIER 2>&1 | grep -v KNOWN | tail -3
 git -C /repo worktree remove --force $WT
